@@ -44,6 +44,12 @@ def evaluate(cfg):
         T2 = kinetic_energy_integral([g[1], g[0]])
         o.call()
         o.cmp("kinetic_energy_integral reversed order", T2, ref[np.ix_(perm, perm)], TOL, scale[np.ix_(perm, perm)])
+        if cfg.get("alias"):
+            idx = list(range(len(ref))) + list(range(na))
+            T3 = kinetic_energy_integral([g[0], g[1], g[0]])
+            o.call()
+            o.cmp("kinetic_energy_integral([a, b, a]) with a the same object", T3, ref[np.ix_(idx, idx)], TOL,
+                  scale[np.ix_(idx, idx)], key="repeated-shell-object")
         for x, y, nm in ((0, 1, "(a,b)"), (1, 0, "(b,a)")):
             blk = KineticEnergyIntegral.construct_array_contraction(g[x], g[y])
             o.call()
